@@ -17,7 +17,8 @@ from . import common
 from . import integ_common as ic
 
 PROP = "C06"
-LEAN_MODULES = ["MiciVerif.Props.C06"]
+LEAN_MODULES = ["MiciVerif.Props.C06", "MiciVerif.Props.C06S"]
+GENERATED = ["integ_steps"]   # tools/extractors/integ_steps.py -> Generated/IntegSteps.lean (step structure of every class)
 LEAN_EXTRA = ["MiciVerif.Model.Integrators", "MiciVerif.Lemmas.IntegratorsExec", "MiciVerif.Proto", "MiciVerif.Model.IntegratorsImplicit", "MiciVerif.Model.IntegratorsTangent"]
 
 
@@ -190,11 +191,67 @@ def _make_case(rng, ikind, skind, n_states=3):
     return {"check": "order", "system": sspec, "integrator": ispec, "states": states}
 
 
+def broken_structure_tie(ctx):
+    """(broken?, integrator kinds whose generated step-structure table differs from the clean-tree copy, definitions).
+    Broken = a `Props/C06S.lean` obligation (generated table = structure of the hand model) no longer checks."""
+    broken = (not ctx.build_ok) or any((not o["ok"]) and ".C06S." in o["theorem"] for o in ctx.obligations)
+    if not broken:
+        return False, [], []
+    try:
+        import sys as _sys
+
+        tools = str(common.VERIF / "tools")
+        if tools not in _sys.path:
+            _sys.path.insert(0, tools)
+        from extractors import integ_steps
+
+        kinds, names = integ_steps.changed_kinds(common.REPO, common.LEAN / "MiciVerif" / "Generated.expected" / "IntegSteps.lean")
+    except Exception as e:  # noqa: BLE001
+        kinds, names = list(ic.INTEGRATOR_KINDS), [f"<{type(e).__name__}: {e}>"]
+    if not kinds:
+        kinds = list(ic.INTEGRATOR_KINDS)
+    return True, kinds, names
+
+
+def broken_structure_theorems(ctx, module="C06S"):
+    """Names of the theorems of Props/<module>.lean at which the build log reports an error (the build stops being
+    per-theorem once a module fails, so the log is mapped back to the enclosing `theorem`)."""
+    import re
+
+    path = common.LEAN / "MiciVerif" / "Props" / f"{module}.lean"
+    try:
+        lines = path.read_text().splitlines()
+    except OSError:
+        return []
+    out = []
+    for m in re.finditer(rf"error: MiciVerif/Props/{module}\.lean:(\d+):", ctx.build_log or ""):
+        ln = int(m.group(1))
+        for i in range(min(ln, len(lines)) - 1, -1, -1):
+            mm = re.match(r"^theorem\s+(\S+)", lines[i])
+            if mm:
+                if mm.group(1) not in out:
+                    out.append(mm.group(1))
+                break
+            if re.match(r"^example\b", lines[i]):
+                break
+    return out
+
+
+def tie_note(ctx, kinds, names, module="C06S"):
+    ths = broken_structure_theorems(ctx, module)
+    return (f" | BROKEN PROOF OBLIGATION {module}: " + (", ".join(ths[:6]) if ths else "module does not build")
+            + f" (generated definitions differing from the clean-tree table: {', '.join(names[:8])}; classes: {', '.join(kinds)})")
+
+
 def direct_oracles(ctx):
     rng = common.rng_for(ctx, 6)
     ic.selfcheck(common.rng_for(ctx, 99), 3)
+    escalate, esc_kinds, esc_names = broken_structure_tie(ctx)
+    if escalate:
+        ctx.count("search_escalated:" + ",".join(esc_kinds))
+        ctx.extra["structure_tie_broken"] = {"kinds": esc_kinds, "generated_definitions_differing": esc_names}
     # (a) coefficient consistency on live objects
-    for r in range(ctx.n(300, 3000)):
+    for r in range(ctx.n(300, 3000) * (3 if escalate and any(k in esc_kinds for k in ("symcomp", "bcss2", "bcss3", "bcss4")) else 1)):
         ikind = ("symcomp", "symcomp", "symcomp", "bcss2", "bcss3", "bcss4")[r % 6] if r >= 24 else ("symcomp", "bcss2", "bcss3", "bcss4")[r % 4]
         skind = ("euclidean", "gaussian")[r % 2]
         sspec = ic.random_system_spec(rng, skind, dim=int(rng.integers(1, 4)))
@@ -207,6 +264,8 @@ def direct_oracles(ctx):
         except Exception as e:  # noqa: BLE001
             fails = [(f"{_cls(case)} construction raises", f"{type(e).__name__}: {e} [{ic.describe(case)}]")]
         for sig, what in fails:
+            if escalate and ikind in esc_kinds:
+                what += tie_note(ctx, esc_kinds, esc_names)
             ctx.violation(sig, what, case)
     # (b) observed orders against the reference flow
     plan = []
@@ -215,6 +274,9 @@ def direct_oracles(ctx):
             reps = ctx.n(10, 100) if ikind in ic.EXPLICIT_KINDS else ctx.n(8, 80) if ikind in ic.IMPLICIT_KINDS else ctx.n(40, 400)
             if ikind in ic.IMPLICIT_KINDS and skind in ic.UNCONSTRAINED_TRACTABLE:
                 reps = ctx.n(3, 30)
+            if escalate and ikind in esc_kinds:
+                # the step-structure table of this class changed: aim the search at it
+                reps = 4 * reps if ikind in ic.EXPLICIT_KINDS else 3 * reps
             plan += [(ikind, skind)] * reps
     for ikind, skind in plan:
         try:
@@ -244,6 +306,8 @@ def direct_oracles(ctx):
             if info.get("refinements"):
                 ctx.count(f"order:refined_step_size_x{info['refinements']}")
         for sig, what in fails:
+            if escalate and ikind in esc_kinds:
+                what += tie_note(ctx, esc_kinds, esc_names)
             ctx.violation(sig, what, case)
     for k, v in ic.STATS.items():
         ctx.count("lib:" + k, v)
@@ -293,18 +357,29 @@ LEVEL_TEXT = (
     'matrix equals 1 + eps F + eps^2/2 F^2 + eps^3 rest(eps) with F the Hamiltonian vector field matrix and rest an explicit '
     'polynomial, for every free list and both initial flows (ordered_sums_palindrome, stepProd_jet, symComp_order2_linear, '
     'stepMatrix_spec linking the matrix to the model step). Negative control: a step whose sub-steps use the full time step '
-    'has first-order jet x + 2 eps f(x) (fullstep_first_order_defect). Tie: live `integrator.coefficients` vs the model '
+    'has first-order jet x + 2 eps f(x) (fullstep_first_order_defect). STRUCTURE TIE (Props/C06S.lean, re-decided on every run '
+    'against Generated/IntegSteps.lean, which tools/extractors/integ_steps.py regenerates from integrators.py by pure ast): for '
+    'every class the ordered list of calls of `_step` with their time arguments as exact rationals of `time_step`, the helper '
+    'descriptors (flow / fixed-point solve / explicit update + reverse check / constrained retraction loop) and '
+    '`Integrator.step` equal the structure of the hand models (*_steps_eq_model, stepWrapper_eq_model), running the generated '
+    'tables IS leapfrog / glStep / imStep / conStep (*_run_eq_model); SymmetricCompositionIntegrator.__init__/_step translated '
+    'statement by statement into Lean functions equal deriveCoeffs / flowsList / symComp for EVERY free list '
+    '(coefficients_eq_model, flows_eq_model, symComp_generated_eq_model); BCSS decimal literals equal the published values digit '
+    'for digit (bcss_literals_eq_published, bcss_floats_close); per class the fractions of every component sum to exactly 1 and '
+    'the arrangement is an (adjoint-paired) palindrome (*_consistent, constrainedLeapfrog_inner_sum). Tie: live `integrator.coefficients` vs the model '
     'exactly; single and multiple steps of real integrators vs the exact-rational model for eps in {1/2,1/4,1/8,1/16}; '
     'implicit leapfrog/midpoint and constrained leapfrog (linear constraints) vs the model (which mirrors the time_step/2 '
     'and time_step/n_inner arrangement). Direct oracle: observed order of '
     'local error (>= 2.7) and energy error (>= 1.7) of the real step against an independent high-accuracy ODE/DAE reference '
     "of the system's OWN Hamiltonian for all integrators x system classes, plus absolute consistency bounds and published "
-    'BCSS coefficient values.'
+    'BCSS coefficient values; when a C06S obligation is broken the search is multiplied (x3-4) for the classes whose table changed.'
 )
 LEVEL_NOTE = (
     'Trusted: Lean kernel, axioms {propext, Classical.choice, Quot.sound}; the analytic fact that the Taylor remainder of a '
     'C^2 gradient is O(|delta|^2) and that agreement of jets to order eps^2 means local error O(eps^3) (DESIGN section 4 (iv)); '
-    'SciPy DOP853 as reference integrator; tolerances of the observed-order test. PARTIAL: for implicit and constrained '
+    'SciPy DOP853 as reference integrator; tolerances of the observed-order test; the translator plug-in integ_steps.py and '
+    'the interpretation of its tables (Lemmas/IntegSteps.lean: glRun / imRun / conRun; fail closed: unknown shapes make '
+    'translator_complete fail). PARTIAL: for implicit and constrained '
     'integrators and for non-linear targets under general compositions second order is established by the observed-order '
     'oracle, not by a theorem.'
 )
